@@ -279,7 +279,8 @@ spif_cmp_t
 spif_obj_comp(spif_obj_t self, spif_obj_t other)
 {
     SPIF_OBJ_COMP_CHECK_NULL(self, other);
-    return SPIF_CMP_FROM_INT((spif_ulong_t) self - (spif_ulong_t) other);
+    return (((spif_ulong_t) self < (spif_ulong_t) other) ? (SPIF_CMP_LESS)
+            : (((spif_ulong_t) self > (spif_ulong_t) other) ? (SPIF_CMP_GREATER) : (SPIF_CMP_EQUAL)));
 }
 
 /**
